@@ -291,7 +291,24 @@ func (c *admCase) cleanup() {
 	}
 	if !c.disposed {
 		c.disposed = true
-		c.sm.Dispose()
+		admGuarded(c.sm.Dispose)
+	}
+}
+
+// admGuarded runs a call into lal that a broken tree may never return from (e.g. a second
+// Group.Dispose blocks on the group's exit channel) without hanging the whole run.
+func admGuarded(f func()) bool {
+	done := make(chan struct{})
+	go func() {
+		defer func() { _ = recover(); close(done) }()
+		f()
+	}()
+	select {
+	case <-done:
+		return true
+	case <-time.After(admWaitDur()):
+		atomic.AddInt32(&admTimeouts, 1)
+		return false
 	}
 }
 
@@ -1019,7 +1036,9 @@ func (c *admCase) doOp(op string) string {
 			return "x"
 		}
 		c.disposed = true
-		c.sm.Dispose()
+		if !admGuarded(c.sm.Dispose) {
+			return "timeout"
+		}
 		return "-"
 	case "media": // media.<sid>: one audio message from that session
 		s := c.sess["c"+f[1]]
@@ -1198,9 +1217,33 @@ func admRun(a []string) string {
 	defer c.cleanup()
 	var out []string
 	for _, op := range strings.Split(a[1], ",") {
-		r := c.doOp(op)
-		c.settle()
-		out = append(out, r+"/"+c.render())
+		// under a watchdog: on a broken tree a call into the server may never return or leave the
+		// server lock held for ever (e.g. a group disposed twice blocks on its exit channel)
+		done := make(chan string, 1)
+		go func(op string) {
+			defer func() {
+				if e := recover(); e != nil {
+					done <- "panic"
+				}
+			}()
+			r := c.doOp(op)
+			c.settle()
+			done <- r + "/" + c.render()
+		}(op)
+		select {
+		case r := <-done:
+			if r == "panic" {
+				c.disposed = true
+				out = append(out, "panic/-/-")
+				return strings.Join(out, ";") + ";anomaly:panic-in-" + strings.Split(op, ".")[0]
+			}
+			out = append(out, r)
+		case <-time.After(3 * admWaitDur()):
+			atomic.AddInt32(&admTimeouts, 1)
+			c.disposed = true // no ServerManager.Dispose at cleanup
+			out = append(out, "hang/-/-")
+			return strings.Join(out, ";") + ";anomaly:op-never-returned"
+		}
 	}
 	res := strings.Join(out, ";")
 	atomic.AddInt32(&admTimeouts, int32(len(c.anomalies)))
